@@ -272,11 +272,11 @@ def formula_of(case):
     return ("y ~ " if resp else "") + A.render(ast)
 
 
-def observe(formula):
+def observe(formula, mutate=False, md=None):
     from formulae import model_description
     from formulae.terms import Intercept, Term, NegatedIntercept
 
-    md = model_description(formula)
+    md = model_description(formula) if md is None else md
     resp = md.response.term.name if md.response is not None else None
     terms, icpt, junk = [], False, []
     for t in md.common_terms:
@@ -291,6 +291,10 @@ def observe(formula):
         e = "1" if isinstance(t.expr, Intercept) else tuple(str(c.name) for c in t.expr.components)
         groups.append((e, tuple(str(c.name) for c in t.factor.components)))
     set(md.terms)  # forces every __hash__ on the path (Model.__eq__ does the same)
+    if mutate:  # the list handed out by .terms belongs to the caller: emptying it leaves the description as it was
+        handed = md.terms
+        handed.reverse()
+        del handed[:]
     return resp, terms, icpt, groups, junk
 
 
@@ -391,6 +395,18 @@ def check_case(case, acc):
     if len(set(terms)) != len(terms) or len(set(groups)) != len(groups):
         problems.append("the same ordered term is listed twice")
         aspects.append("twice")
+    if any(len(set(t)) != len(t) for t in terms) or any(e != "1" and len(set(e)) != len(e) for e, _ in groups) or any(len(set(f_)) != len(f_) for _, f_ in groups):
+        problems.append(f"a term lists the same factor twice (repeated factors are collapsed): {[t for t in terms if len(set(t)) != len(t)] or groups}")
+        aspects.append("repeated-factor")
+    if not problems:
+        from formulae import model_description as _md
+
+        d = _md(formula)
+        first = observe(formula, mutate=True, md=d)
+        again = observe(formula, md=d)
+        if first != again:
+            problems.append("after the caller emptied the list it got from .terms the description itself changed")
+            aspects.append("terms-list-aliased")
     if problems:
         acc.case(formula, "mismatch")
         acc.violation("expansion", "mismatch:" + "+".join(aspects), case, f"{formula!r}: " + "; ".join(problems))
